@@ -36,7 +36,7 @@ func init() {
 			"non-trivial = parsed, verified against all three certificates and re-encoding compared; distinct = distinct blob",
 		Assumptions: []string{"OpenSSL as installed in the image is the third-party producer; osslsigncode/pesign are not installed", "signer identification by issuer+serial only (-keyid configurations are outside the statement)"},
 		Units: func(tier string) []string {
-			u := []string{"fixtures"}
+			u := []string{"fixtures", "resign"}
 			for _, k := range c05Keys(tier) {
 				for _, tool := range []string{"smime", "cms"} {
 					u = append(u, fmt.Sprintf("openssl#%s#k%d", tool, k))
@@ -236,6 +236,44 @@ func c16Run(c *hx.Ctx, tier, unit string) {
 				c16Judge(c, t.root.Encode(), seed.Signer, fmt.Sprintf("%s with %d further signed attributes in DER order", seed.Name, len(extra)), "hand-built (Authenticode-signer style)")
 			}
 		}
+	case "resign":
+		// messages that went through two producers: signed by one openssl front end (PKCS#7 or CMS code),
+		// co-signed by the other (or the same) with -resign. The two write the SHA-256 AlgorithmIdentifier
+		// differently (NULL parameters / none), so the added signer entry may spell it unlike digestAlgorithms.
+		if !ossl.Available() {
+			c.Note("openssl not installed")
+			return
+		}
+		sess, err := ossl.New()
+		if err != nil {
+			return
+		}
+		defer sess.Close()
+		content := fill(64, 0x41)
+		for _, t1 := range []string{"smime", "cms"} {
+			for _, t2 := range []string{"smime", "cms"} {
+				for _, det := range [][]string{nil, {"-nodetach"}} {
+					for _, order := range []int{0, 1} { // which of the two signers is the one under test
+						k := []int{1, 3}
+						first, second := k[order], k[1-order]
+						label := fmt.Sprintf("openssl %s -sign %v by k%d, then openssl %s -resign by k%d", t1, det, first, t2, second)
+						c.Tick()
+						b1, err := sess.Sign(t1, keys.K(first), keys.C(first), content, det...)
+						if err != nil {
+							c.Note("producer failed for %s: %v", label, err)
+							continue
+						}
+						b2, err := sess.Resign(t2, b1, keys.K(second), keys.C(second), det...)
+						if err != nil {
+							c.Note("producer failed for %s: %v", label, err)
+							continue
+						}
+						c.Count("producer_configurations", 1)
+						c16Judge(c, b2, keys.C(1), label, "openssl "+t1+" + "+t2+" -resign")
+					}
+				}
+			}
+		}
 	case "openssl":
 		if !ossl.Available() {
 			c.Note("openssl not installed")
@@ -296,6 +334,12 @@ func c16Run(c *hx.Ctx, tier, unit string) {
 							for i, tc := range trickyContents() {
 								cs = append(cs, cont{-1 - i, tc.b})
 							}
+						}
+						// content that is itself one DER element (a typed content as CMS carries it inside the
+						// eContent OCTET STRING: receipts, timestamp tokens, nested messages): the digest covers it whole
+						if len(cap) == 0 && len(nc) == 0 {
+							cs = append(cs, cont{-100, der.Cons(0x30, der.Prim(0x02, []byte{5}), der.Prim(0x04, []byte("typed content"))).Encode()},
+								cont{-101, der.Prim(0x04, []byte("an OCTET STRING as content")).Encode()})
 						}
 						for _, cn := range cs {
 							n := cn.n
